@@ -1,14 +1,14 @@
 /-
 C02 (lexical half) — every identifier the generator emits is a legal Safe-DS `ID` token, keywords
 are back-quoted, string literals and documentation comments are closed — and the exact conditions
-on the analysed package under which this is true (names outside `Convertible`, string values with
-quotes/newlines and docstrings containing `*/` are NOT escaped by the tool: known findings, kept
-as closed counterexamples).
+on the analysed package under which this is true (names outside `Convertible`; docstrings containing `*/` are NOT
+escaped by the tool: known finding, kept as a closed counterexample; string values ARE escaped since repair d913d69).
 
 Token classes: `Spec/Tokens.lean`.  Helper lemmas (`lx_…`): `Proofs/Lexical.lean`.
 -/
 import StubGen.Proofs.Lexical
 import StubGen.Proofs.PathConv
+import StubGen.Model.Analyze
 
 namespace StubGen.C02
 
@@ -79,12 +79,38 @@ example : Convertible "_val".toList = true ∧ escapeKeyword (convertName "_val"
 
 /-! ## 5. string literals -/
 
-/-- a string literal value without quote, backslash and newline is one closed `STRING` token -/
-theorem string_literal_closed (s : String) (h : stringBodySafe s.toList = true) :
-    isStringToken (Lit.render (.str s)) = true := lx_string_closed h
+/-- EVERY string literal value is one closed `STRING` token: backslashes, quotes and line breaks are escaped (repair
+    d913d69; before it a quote inside the value closed the literal early and a line break broke it) -/
+theorem string_literal_closed (s : String) : isStringToken (Lit.render (.str s)) = true := lx_escape_closed s
 
-/-- string default values arrive as `"\"" ++ v ++ "\""` (built by `_ast_visitor`) and are emitted
-    unchanged, whatever kind of parameter they belong to -/
+/-- … the same function renders the string DEFAULT VALUES in the analyser (`_get_parameter_type_and_default_value`):
+    every Python string default reaches the API as one closed `STRING` token -/
+theorem string_default_value_closed (fid v : String) :
+    ∃ t, defaultOf fid (.str v) = (.str t, false, []) ∧ isStringToken t = true :=
+  ⟨_, rfl, lx_escape_closed v⟩
+
+/-- the generator emits a string default unchanged, whatever kind of parameter it belongs to: with the text the analyser
+    produces (`escapeStringLiteral v`) … -/
+theorem string_default_emitted (a : Assign) (v : String) (st : St) :
+    ∃ r, defaultString a (.str (escapeStringLiteral v)) st = .ok (r, st) ∧ r = escapeStringLiteral v ∧
+      isStringToken r = true := by
+  refine ⟨_, ?_, rfl, lx_escape_closed v⟩
+  have hl : (escapeStringLiteral v).toList = '"' :: (v.toList.flatMap escapeStringChar ++ ['"']) := by
+    unfold escapeStringLiteral; rw [String.toList_ofList]
+  have h1 : (escapeStringLiteral v == "()") = false := by
+    rw [beq_eq_false_iff_ne]; intro e
+    have := congrArg String.toList e
+    rw [hl] at this
+    simp at this
+  have h2 : (escapeStringLiteral v == "{}") = false := by
+    rw [beq_eq_false_iff_ne]; intro e
+    have := congrArg String.toList e
+    rw [hl] at this
+    simp at this
+  simp only [defaultString, h1, h2, Bool.and_false, Bool.false_eq_true, if_false]
+  rfl
+
+/-- … and with any other pre-quoted text whose body needs no escape (API files written by hand or by older versions) -/
 theorem string_default_closed (a : Assign) (v : String) (st : St) (h : stringBodySafe v.toList = true) :
     ∃ r, defaultString a (.str ("\"" ++ v ++ "\"")) st = .ok (r, st) ∧ r = "\"" ++ v ++ "\"" ∧
       isStringToken r = true := by
@@ -100,12 +126,12 @@ theorem string_default_closed (a : Assign) (v : String) (st : St) (h : stringBod
   simp only [defaultString, h1, h2, Bool.and_false, Bool.false_eq_true, if_false]
   rfl
 
-/-- known finding: string values are not escaped.  A quote inside the value closes the literal
-    early, a newline breaks it; a value that already contains a legal escape sequence is fine. -/
-example : Lit.render (.str "a\"b") = "\"a\"b\"" ∧ isStringToken (Lit.render (.str "a\"b")) = false := by decide
-example : isStringToken (Lit.render (.str "a\nb")) = false := by decide
-example : isStringToken (Lit.render (.str "C:\\dir")) = false := by decide
-example : isStringToken (Lit.render (.str "a\\nb")) = true ∧ stringBodySafe "a\\nb".toList = false := by decide
+/-- what was written before the repair, and what is written now -/
+example : isStringToken "\"a\"b\"" = false ∧ Lit.render (.str "a\"b") = "\"a\\\"b\"" ∧
+    isStringToken (Lit.render (.str "a\"b")) = true := by decide
+example : Lit.render (.str "a\nb") = "\"a\\nb\"" ∧ Lit.render (.str "C:\\dir") = "\"C:\\\\dir\"" := by decide
+/-- an escape sequence the Python string already spells out is escaped again (the value is data, not Safe-DS source) -/
+example : Lit.render (.str "a\\nb") = "\"a\\\\nb\"" := by decide
 
 /-! ## 6. parameters -/
 
